@@ -15,12 +15,24 @@
         -> reconverges_after_loss (dead-neighbour checks make the state fit what is left), links_can_be_added
 -/
 import NdnVerif.C18.LemmasSP
+import NdnVerif.C18.Spec
 import NdnVerif.C18.LemmasConv
 import NdnVerif.C18.LemmasLoss
 namespace Ndn.C18
 
 /-- the regenerated constant is the protocol's infinity metric -/
 theorem costInfinity_is_sixteen : inf = 16 := rfl
+
+/-- Every configuration `Config.Parse` accepts keeps a neighbour that is heard once per advertise interval
+    alive: the time since its last heartbeat never exceeds the dead interval (so the deadcheck sweep on
+    stable links removes nobody — the assumption under which exchanges on a stable topology are the only
+    events, as in `converges_within_rounds`). -/
+theorem accepted_config_keeps_live_neighbours (advMs deadMs : Nat) (h : configValid advMs deadMs = true) :
+    Spec.deadIntervalOk advMs deadMs = true ∧ ∀ since, since ≤ advMs → ¬ since > deadMs := by
+  simp only [configValid, Bool.and_eq_true, decide_eq_true_eq] at h
+  refine ⟨by simp only [Spec.deadIntervalOk, decide_eq_true_eq]; omega, fun since hs => by omega⟩
+
+example : configValid 5000 30000 = true ∧ configValid 5000 9999 = false ∧ configValid 999 30000 = false := by decide
 
 /-! ### deterministic selection -/
 
